@@ -159,7 +159,7 @@ class Engine:
         if not self.cfg.get('track_content'):
             return
         dst = entry[1]
-        if self.loop_depth > 0:
+        if self.loop_depth > 0 and not self.cfg.get('content_invariant_loops'):
             entry = ('unknown', dst.region if isinstance(dst, Ptr) else dst)
         st.wlog.append(entry)
 
@@ -174,6 +174,12 @@ class Engine:
             if e[0] == 'unknown':
                 if e[1] in (region, '*'):
                     return [(('unknown',), st)]
+                continue
+            if e[0] == 'rebase':
+                # the content of the region is described by an (inductively proved) content invariant from here
+                # on backwards: e[2]( state, offset) -> list of (descriptor, state)
+                if e[1] == region:
+                    return e[2](self, st, off)
                 continue
             dst = e[1]
             if not isinstance(dst, Ptr):
@@ -1571,7 +1577,8 @@ class Engine:
         return False
 
     def loop_(self, n, states, func):
-        if self.cfg.get('track_content') and self.loop_writes_memory(n):
+        if self.cfg.get('track_content') and not self.cfg.get('content_invariant_loops') and \
+                self.loop_writes_memory(n):
             # the body is analysed for one arbitrary iteration only: the final content of whatever it
             # writes is not described by the log
             for s0 in states:
@@ -2231,6 +2238,73 @@ def m_string_method(eng, n, st, func, want):
                 if key in s2.fields:
                     s2.fields[key] = eng.fresh('len', s2, 'unsigned long')
                 out.append((ov, s2))
+        elif short == 'compare' and eng.cfg.get('track_reads'):
+            # compare( str) | compare( pos1, n1, str) | compare( pos1, n1, str, pos2, n2): sign of the comparison of
+            # this.substr( pos1, n1) with str.substr( pos2, n2); the observation fact records both sub-ranges
+            ln = eng.string_len(s1, ov.name)
+            real = [a for a in args if not a.get('defarg')]
+            for vals, s2 in _ev_all(eng, real, s1, func):
+                other = [v for v in vals if isinstance(v, (Obj, Ptr))]
+                nums = [v for v in vals if isinstance(v, Lin)]
+                if len(other) != 1 or len(nums) not in (0, 2, 4):
+                    return None
+                o = other[0]
+                if isinstance(o, Obj):
+                    oregion, olen = o.name + '.data', eng.string_len(s2, o.name)
+                else:
+                    oregion, olen = o.region, s2.fields.get((o.region, 'strlen'))
+                    if olen is None:
+                        return None
+                pos1, n1 = (nums[0], nums[1]) if len(nums) >= 2 else (lin(0), ln)
+                pos2, n2 = (nums[2], nums[3]) if len(nums) == 4 else (lin(0), olen)
+                # exact sub-range lengths min( n, size - pos) by case split; pos > size throws
+                for beyond, s3 in eng.compare('>', pos1, ln, s2, n, func):
+                    if beyond:
+                        s3.status = 'throw'
+                        out.append((UNKNOWN, s3))
+                        continue
+                    for first1, s4 in eng.compare('<=', n1, ln - pos1, s3, n, func):
+                        l1 = n1 if first1 else ln - pos1
+                        for beyond2, s5 in eng.compare('>', pos2, olen, s4, n, func):
+                            if beyond2:
+                                s5.status = 'throw'
+                                out.append((UNKNOWN, s5))
+                                continue
+                            for first2, s6 in eng.compare('<=', n2, olen - pos2, s5, n, func):
+                                l2 = n2 if first2 else olen - pos2
+                                # sub-ranges of different lengths never compare equal
+                                for same_len, s7 in eng.compare('==', l1, l2, s6, n, func):
+                                    variants = [s7] if same_len else [s7.copy(), s7]
+                                    for vi, s8 in enumerate(variants):
+                                        r = eng.fresh('compare', s8, 'int')
+                                        if not same_len:
+                                            s8.assume(le(r, -1) if vi == 0 else ge(r, 1))
+                                        s8.ghost.append(('strcmp', (ov.name + '.data', pos1, l1), (oregion, pos2, l2),
+                                                         r))
+                                        out.append((r, s8))
+        elif short in ('find', 'rfind') and eng.cfg.get('track_reads') and args and \
+                'basic_string' in (args[0].get('t') or ''):
+            # find( str, pos = 0) / rfind( str, pos = npos): first / last occurrence at or after / before pos
+            ln = eng.string_len(s1, ov.name)
+            real = [a for a in args if not a.get('defarg')]
+            for vals, s2 in _ev_all(eng, real, s1, func):
+                if not vals or not isinstance(vals[0], Obj):
+                    return None
+                needle = vals[0]
+                pos = vals[1] if len(vals) > 1 and isinstance(vals[1], Lin) else \
+                    (lin(0) if short == 'find' else lin((1 << 64) - 1))
+                nl = eng.string_len(s2, needle.name)
+                hit = s2.copy()
+                k = eng.fresh(short, hit, 'unsigned long')
+                hit.assume(le(k + nl, ln))
+                hit.assume(ge(k, pos) if short == 'find' else le(k, pos))
+                hit.trail.append('%s finds a position' % short)
+                if hit.ok():
+                    hit.ghost.append(('sfind', short, ov.name, needle.name, pos, k))
+                    out.append((k, hit))
+                s2.trail.append('%s finds nothing' % short)
+                s2.ghost.append(('sfind', short, ov.name, needle.name, pos, None))
+                out.append((lin((1 << 64) - 1), s2))
         elif short in ('find', 'find_first_of', 'rfind', 'find_last_of', 'find_first_not_of', 'find_last_not_of'):
             # a position inside the text or npos
             ln = eng.string_len(s1, ov.name)
